@@ -9,7 +9,7 @@ combiner `f`, over the model of `reduce_node.cpp` in `Model/Reduce.lean`.
 * `resolve_closed_eq_rec`  : the closed form of `resolve_aggregate` (bit_floor / bit_width / shift /
                              left descent) equals the recursive definition, for every capacity
                              `0` or `2^k`, every live count and every position.
-* `Shape`                  : the representation invariant (capacity `0` or a power of two `≥` live
+* `Shape` (Lemmas/Reduce)  : the representation invariant (capacity `0` or a power of two `≥` live
                              count, distinct keys, `combiners[p]` exists exactly where phase 1 needs one).
 * `tree_value_eq_fold`     : in every `Shape` state the published root value is the left fold of `f`
                              over the live leaves in leaf order (no zero, or two or more leaves).
@@ -21,6 +21,7 @@ combiner `f`, over the model of `reduce_node.cpp` in `Model/Reduce.lean`.
                              add / remove deltas, several per cycle, full or incremental structural
                              rebuild, capacity growth) satisfies `Shape`; `reachable_value` combines it
                              with the fold theorem.
+* `reachable_history_free` : the same, end to end for two arbitrary histories with the same live key set.
 * `keys_track_source`      : after a reconcile the dense leaves are exactly the currently valid
                              elements (old ones not removed, plus the added ones).
 * `combiner_count`, `reachable_combiner_count` : live combiners `= max(n-1, [n = 1 ∧ zero])`.
@@ -106,62 +107,6 @@ theorem tree_value_eq_fold (f : α → α → α) (hf : ∀ a b c, f (f a b) c =
       have h00 : (1 : Nat) + 0 - 1 = 0 := rfl
       rw [h00] at this
       rw [this, List.take_of_length_le hle]
-
-/-- the singleton-with-zero root: `combine(value, zero)` -/
-theorem singleton_zero_value (f : α → α → α) (zero : Option α) (src : κ → Option α) (t : Tree κ)
-    (hs : Shape true t) (k : κ) (hk : t.keys = [k]) :
-    rootOut f true zero src t =
-      match src k, zero with
-      | some v, some z => some (f v z)
-      | _, _ => none := by
-  have hn : t.keys.length = 1 := by rw [hk]; rfl
-  have hcap := hs.zero_cap rfl (by omega)
-  rcases hs.cap_pow with hc | ⟨e, hc⟩
-  · omega
-  · have he : 1 ≤ e := by
-      apply Classical.byContradiction
-      intro h
-      have : e = 0 := by omega
-      subst this
-      simp at hc; omega
-    have hcap2 : 2 ≤ 2 ^ e := by rw [← hc]; exact hcap
-    have hcl : t.combiners.length = 2 ^ e - 1 := by rw [hs.comb_len, hc, internalCount_pow]
-    have hcn : 0 < 2 ^ e - 1 → t.combiners[0]? = some (neededAt true (2 ^ e) 1 0) := by
-      have := hs.comb_needed 0
-      rw [hc, hn, internalCount_pow] at this
-      exact this
-    unfold rootOut
-    rw [hn, hc]
-    have hpos : 0 < 2 ^ e - 1 := by omega
-    have hroot : rootAgg true (2 ^ e) 1 t.combiners.length = .node 0 := by
-      unfold rootAgg
-      have : (t.combiners.length != 0) = true := by rw [hcl]; simp; omega
-      simp [this]
-    rw [hroot]
-    have hL : resolveClosed (2 ^ e) 1 (2 * 0 + 1) = .leaf 0 := by
-      have := resolveClosed_eq_spec e 1 0 1 he (by simp)
-      simp only [Nat.pow_one, Nat.add_zero, Nat.zero_mul] at this
-      rw [show 2 * 0 + 1 = 2 - 1 from rfl, this]
-      unfold spec
-      have hp := two_pow_pos' (e - 1)
-      have : min (2 ^ (e - 1)) (1 - 0) = 1 := by omega
-      simp [this]
-    have hR : resolveClosed (2 ^ e) 1 (2 * 0 + 2) = .empty := by
-      have := resolveClosed_eq_spec e 1 1 1 he (by simp)
-      simp only [Nat.pow_one, Nat.one_mul] at this
-      rw [show 2 * 0 + 2 = 2 + 1 - 1 from rfl, this]
-      have hp := two_pow_pos' (e - 1)
-      exact (spec_empty_iff _ _ _ _).mpr (by omega)
-    have hlive : combLive t.combiners 0 = true := by
-      unfold combLive
-      rw [hcn hpos]
-      simp [neededAt]
-    simp only [aggOut]
-    rw [nodeOut_eq f _ (2 ^ e) 1 _ _ 0 (by rw [internalCount_pow]; exact hpos) hlive
-      (by intro q hq; rw [hL] at hq; cases hq) (by intro q hq; rw [hR] at hq; cases hq)]
-    rw [hL, hR]
-    simp only [aggOut, leafVal, hk, List.getElem?_cons_zero, ↓reduceIte]
-    cases src k <;> cases zero <;> rfl
 
 /-- C11 (floor), the zero / no-zero contract by live-value count, in every `Shape` state:
     1. empty ∧ no zero ⇒ invalid; 2. empty ∧ zero ⇒ the zero; 3. exactly one element ∧ zero ⇒
@@ -254,6 +199,7 @@ end Value
 /-! ## the invariant holds after every history -/
 
 section Reach
+set_option linter.unusedSectionVars false
 variable {κ : Type} [DecidableEq κ]
 
 /-- C11 (ceiling): `rebuild_structure` — including the bank swap on capacity growth — never touches the
@@ -266,110 +212,6 @@ theorem rebuild_keeps_leaves (hasZero : Bool) (now : Nat) (t : Tree κ) (full : 
 theorem removeLeafAt_perm (keys : List κ) (i : Nat) (hi : i < keys.length) :
     keys.Perm (keys[i] :: removeLeafAt keys i) := removeLeafAt_perm' keys i hi
 
-theorem Shape.of_eq {hz : Bool} {a b : Tree κ} (h : Shape hz a) (hk : b.keys = a.keys) (hc : b.cap = a.cap)
-    (hm : b.combiners = a.combiners) : Shape hz b := by
-  refine ⟨?_, ?_, ?_, ?_, ?_, ?_⟩
-  · rw [hc]; exact h.cap_pow
-  · rw [hc, hk]; exact h.live_le
-  · rw [hk]; exact h.nodup
-  · rw [hc, hm]; exact h.comb_len
-  · rw [hc, hm, hk]; exact h.comb_needed
-  · rw [hc, hk]; exact h.zero_cap
-
-theorem destroyPrev_fields (now : Nat) (t : Tree κ) :
-    (destroyPrevBefore now t).keys = t.keys ∧ (destroyPrevBefore now t).cap = t.cap ∧
-    (destroyPrevBefore now t).combiners = t.combiners ∧ (destroyPrevBefore now t).primed = t.primed ∧
-    (destroyPrevBefore now t).published = t.published := by
-  unfold destroyPrevBefore
-  split <;> exact ⟨rfl, rfl, rfl, rfl, rfl⟩
-
-/-- `reduce_reconcile` (leaf reconcile + structural rebuild, whichever branch is taken) preserves the
-    representation invariant -/
-theorem evalReconcile_shape (hz : Bool) (now : Nat) (t : Tree κ) (available modified : Bool)
-    (removed present : List κ) (hs : Shape hz t) :
-    Shape hz (evalReconcile hz now t available modified removed present) := by
-  unfold evalReconcile
-  simp only
-  have hfull : ∀ x : Tree κ, x.cap = t.cap → x.combiners = t.combiners → x.keys.Nodup →
-      Shape hz (rebuild hz now x true) := by
-    intro x hc hm hn
-    apply rebuild_shape hz now x true
-    · rw [hc]; exact hs.cap_pow
-    · exact hn
-    · rw [hm, hc]; exact hs.comb_len
-    · intro h; cases h
-  by_cases hav : available = true
-  · simp only [hav, ↓reduceIte]
-    by_cases hpm : (!t.primed || modified) = true
-    · simp only [hpm, ↓reduceIte]
-      unfold reconcileLeaves
-      by_cases hpr : t.primed = true
-      · -- sparse reconcile of a primed tree
-        simp only [hpr, Bool.not_true, Bool.false_eq_true, ↓reduceIte, Bool.or_false]
-        have hinv : LeafInv t (present.foldl addKey (removed.foldl removeKey t)) :=
-          ((LeafInv.refl t hs.nodup).foldl_removeKey removed).foldl_addKey present
-        generalize (present.foldl addKey (removed.foldl removeKey t)) = t2 at *
-        split
-        · next hcond =>
-          by_cases hpub : t.published = true
-          · -- incremental rebuild
-            simp only [hpub, Bool.not_true]
-            apply rebuild_shape hz now _ false
-            · show IsCap t2.cap
-              rw [hinv.cap]; exact hs.cap_pow
-            · exact hinv.nodup
-            · show t2.combiners.length = internalCount t2.cap
-              rw [hinv.combiners, hinv.cap]; exact hs.comb_len
-            · intro _
-              refine ⟨t.keys.length, ?_, hinv.covers, ?_⟩
-              · show t.keys.length ≤ t2.cap
-                rw [hinv.cap]; exact hs.live_le
-              · intro p hp
-                show t2.combiners[p]? = some (neededAt hz t2.cap t.keys.length p)
-                rw [hinv.combiners, hinv.cap]
-                exact hs.comb_needed p (by rw [← hinv.cap]; exact hp)
-          · have hpf : t.published = false := by simpa using hpub
-            simp only [hpf, Bool.not_false]
-            exact hfull _ hinv.cap hinv.combiners hinv.nodup
-        · next hcond =>
-          -- nothing structural happened: the leaves are unchanged
-          simp only [Bool.or_eq_true, Bool.not_eq_true', not_or, Bool.not_eq_true, Bool.not_eq_false] at hcond
-          have hsl : t2.structLeaves = [] := by
-            have := hcond.1
-            simpa using this
-          exact hs.of_eq (hinv.quiet hsl) hinv.cap hinv.combiners
-      · -- first (full) reconcile
-        have hpf : t.primed = false := by simpa using hpr
-        simp only [hpf, Bool.not_false, ↓reduceIte, Bool.true_or, Bool.or_true]
-        have hinv : LeafInv (clearLeaves t) (present.foldl addKey (clearLeaves t)) :=
-          (LeafInv.refl (clearLeaves t) (by simp [clearLeaves])).foldl_addKey present
-        exact hfull _ hinv.cap hinv.combiners hinv.nodup
-    · simp only [hpm, Bool.false_eq_true, ↓reduceIte]
-      split
-      · next hpub =>
-        have hpf : t.published = false := by simpa using hpub
-        simp only [hpf, Bool.not_false]
-        exact hfull t rfl rfl hs.nodup
-      · exact hs
-  · simp only [hav, Bool.false_eq_true, ↓reduceIte]
-    split
-    · exact hfull _ rfl rfl (by simp [clearLeaves])
-    · split
-      · next hpub =>
-        have hpf : t.published = false := by simpa using hpub
-        simp only [hpf, Bool.not_false]
-        exact hfull t rfl rfl hs.nodup
-      · exact hs
-
-/-- one evaluation of the reduce node preserves the representation invariant -/
-theorem evalStructure_shape (hz : Bool) (now : Nat) (t0 : Tree κ) (available modified : Bool)
-    (removed present : List κ) (hs0 : Shape hz t0) :
-    Shape hz (evalStructure hz now t0 available modified removed present) := by
-  obtain ⟨e1, e2, e3, _, _⟩ := destroyPrev_fields now t0
-  unfold evalStructure
-  apply evalReconcile_shape
-  exact hs0.of_eq e1 e2 e3
-
 /-- the states of the reduce node's storage reachable by any history of evaluations: any deltas
     (several adds / removes per cycle, in any order), with or without the collection being available
     or modified -/
@@ -377,11 +219,6 @@ inductive Reachable (hasZero : Bool) : Tree κ → Prop
   | init : Reachable hasZero {}
   | eval (t : Tree κ) (now : Nat) (available modified : Bool) (removed present : List κ) :
       Reachable hasZero t → Reachable hasZero (evalStructure hasZero now t available modified removed present)
-
-theorem shape_init (hz : Bool) : Shape hz ({} : Tree κ) := by
-  refine ⟨Or.inl rfl, by simp, by simp, by simp [internalCount], ?_, ?_⟩
-  · intro p hp; simp [internalCount] at hp
-  · intro _ h; simp at h
 
 /-- C11: every reachable state satisfies the representation invariant — whatever the history of adds,
     removes, ticks and capacity growth, including the incremental (ancestor paths only) update of the
@@ -401,6 +238,21 @@ theorem reachable_value {α : Type} (f : α → α → α) (hf : ∀ a b c, f (f
     rootOut f hasZero zero src t = foldOpt f (t.keys.filterMap src) :=
   tree_value_eq_fold f hf hasZero zero src t (shape_reachable hasZero t hr) _
     (map_eq_map_some_filterMap src t.keys hvalid) hn
+
+/-- C11, history independence end to end: two ARBITRARY histories of evaluations (different orders of
+    adds, removes and ticks, different numbers of cycles, different capacities reached) that end with
+    the same set of live keys publish the same value, for a commutative associative combiner.  (The
+    value is a function of the storage and the *current* element values `src` only, so the order of
+    value ticks cannot matter either.) -/
+theorem reachable_history_free {α : Type} (f : α → α → α) (hf : ∀ a b c, f (f a b) c = f a (f b c))
+    (hc : ∀ a b, f a b = f b a) (hasZero : Bool) (zero : Option α) (src : κ → Option α) (t1 t2 : Tree κ)
+    (h1 : Reachable hasZero t1) (h2 : Reachable hasZero t2) (hsame : ∀ k, k ∈ t1.keys ↔ k ∈ t2.keys)
+    (hvalid : ∀ k ∈ t1.keys, (src k).isSome) :
+    rootOut f hasZero zero src t1 = rootOut f hasZero zero src t2 := by
+  have s1 := shape_reachable hasZero t1 h1
+  have s2 := shape_reachable hasZero t2 h2
+  exact reduce_history_free f hf hc hasZero zero src t1 t2 s1 s2
+    ((List.perm_ext_iff_of_nodup s1.nodup s2.nodup).mpr hsame) hvalid
 
 /-- C11, "exactly the currently valid elements": after a reconcile the dense leaves are the previous
     leaves that were not removed plus the added / newly valid elements (sparse delta), or exactly the
@@ -470,6 +322,66 @@ theorem combiner_count (hasZero : Bool) (t : Tree κ) (hs : Shape hasZero t) :
 theorem reachable_combiner_count (hasZero : Bool) (t : Tree κ) (hr : Reachable hasZero t) :
     combinerCount t = if hasZero = true ∧ t.keys.length = 1 then 1 else t.keys.length - 1 :=
   combiner_count hasZero t (shape_reachable hasZero t hr)
+
+/-! ## non-vacuity: a concrete non-trivial history -/
+
+/-- three keys arrive in one cycle, then the middle one is removed while two more arrive (growth over
+    the capacity boundary 4), then the last two are removed: with a supplied zero -/
+def exampleTree : Tree Nat :=
+  evalStructure true 3
+    (evalStructure true 2
+      (evalStructure true 1 ({} : Tree Nat) true true [] [10, 20, 30])
+      true true [20] [40, 50])
+    true true [50, 10] []
+
+theorem exampleTree_reachable : Reachable true exampleTree :=
+  .eval _ _ _ _ _ _ (.eval _ _ _ _ _ _ (.eval _ _ _ _ _ _ .init))
+
+/-- swap-remove moved the last leaf into the holes: dense order differs from arrival order -/
+example : exampleTree.keys = [40, 30] := by decide +kernel
+
+example : Shape true exampleTree := shape_reachable _ _ exampleTree_reachable
+
+/-- the hypotheses of `reachable_value` are satisfiable and give the sum of exactly the live values,
+    the zero `1000` not being an operand -/
+example : rootOut (· + ·) true (some 1000) (fun k => some k) exampleTree = some 70 := by
+  rw [reachable_value (· + ·) Nat.add_assoc true (some 1000) (fun k => some k) exampleTree
+    exampleTree_reachable (by intro k _; rfl) (Or.inr (by decide +kernel))]
+  decide +kernel
+
+example : combinerCount exampleTree = 1 := by
+  rw [reachable_combiner_count true exampleTree exampleTree_reachable]; decide +kernel
+
+/-- the singleton-with-zero case of `zero_contract` on a reachable state -/
+def exampleSingleton : Tree Nat :=
+  evalStructure true 2 (evalStructure true 1 ({} : Tree Nat) true true [] [7, 8]) true true [7] []
+
+example : rootOut (· + ·) true (some 1000) (fun k => some k) exampleSingleton = some 1008 :=
+  (zero_contract (· + ·) Nat.add_assoc true (fun k => some k) exampleSingleton
+    (shape_reachable _ _ (.eval _ _ _ _ _ _ (.eval _ _ _ _ _ _ .init)))).2.2.1 8 8 (by decide +kernel) rfl rfl 1000
+
+/-- `reduce_history_free` on two different histories (different arrival order, different capacities:
+    the first grew to 8 leaves and shrank, the second never held more than two) -/
+def historyA : Tree Nat :=
+  evalStructure false 2 (evalStructure false 1 ({} : Tree Nat) true true [] [1, 2, 3, 4, 5]) true true [1, 3, 5] []
+
+def historyB : Tree Nat :=
+  evalStructure false 2 (evalStructure false 1 ({} : Tree Nat) true true [] [2]) true true [] [4]
+
+example : historyA.keys = [4, 2] ∧ historyB.keys = [2, 4] ∧ historyA.cap = 8 ∧ historyB.cap = 2 := by decide +kernel
+
+example (src : Nat → Option Int) (h2 : (src 2).isSome) (h4 : (src 4).isSome) (f : Int → Int → Int)
+    (hf : ∀ a b c, f (f a b) c = f a (f b c)) (hc : ∀ a b, f a b = f b a) (zero : Option Int) :
+    rootOut f false zero src historyA = rootOut f false zero src historyB := by
+  apply reduce_history_free f hf hc false zero src historyA historyB
+    (shape_reachable _ _ (.eval _ _ _ _ _ _ (.eval _ _ _ _ _ _ .init)))
+    (shape_reachable _ _ (.eval _ _ _ _ _ _ (.eval _ _ _ _ _ _ .init)))
+  · have : historyA.keys = [4, 2] ∧ historyB.keys = [2, 4] := by decide +kernel
+    rw [this.1, this.2]; exact List.Perm.swap 2 4 []
+  · have : historyA.keys = [4, 2] := by decide +kernel
+    rw [this]; intro k hk
+    simp at hk
+    rcases hk with rfl | rfl <;> assumption
 
 end Reach
 
